@@ -30,8 +30,9 @@ COMPS = [
     ("group", "GroupProxNewton", "LogisticGroup", "WeightedGroupL2"),
     ("group", "GroupBCD", "QuadraticGroup", "WeightedL1GroupL2"),
     ("multitask", "MultiTaskBCD", "QuadraticMultiTask", "L2_1"),
+    ("scalar", "ProxNewton", "Cox-breslow", "L1"), ("scalar", "ProxNewton", "Cox-efron", "L1"),
 ]
-QUICK = {0, 1, 2, 5, 7, 8, 9, 10, 11, 12, 13}
+QUICK = {0, 1, 2, 5, 7, 8, 9, 10, 11, 12, 13, 14, 15}
 
 
 def shards(tier):
@@ -47,6 +48,10 @@ def shards(tier):
 def transforms_for(kind, fam, pen):
     t = ["feature-perm", "sample-perm"]
     if fam in ("Quadratic", "Logistic", "Huber", "Poisson", "Gamma", "WeightedQuadratic", "QuadraticGroup", "LogisticGroup", "QuadraticMultiTask"):
+        t.append("stack")
+    if fam == "Cox-breslow":
+        # the Breslow partial likelihood / n gains the constant log(k) * (fraction of events) under k-fold stacking;
+        # Efron's tie correction is not invariant (not claimed)
         t.append("stack")
     if fam in ("Quadratic", "QuadraticGroup", "QuadraticMultiTask", "WeightedQuadratic") and pen in ("L1", "WeightedL1", "WeightedGroupL2", "L2_1", "WeightedL1GroupL2"):
         t.append("scale-y")
@@ -82,7 +87,7 @@ def case_strategy(draw, shard):
     else:
         case = draw(P.multitask_case(pen, sizes=sizes, starts=False))
     case["init"] = None
-    if fam in ("Logistic", "LogisticGroup", "Poisson"):
+    if fam in ("Logistic", "LogisticGroup", "Poisson") or fam.startswith("Cox"):
         # zero weights = unpenalised directions: (quasi-)separable data then has no finite minimiser and the tight
         # solves never converge; symmetric-solution claims need a minimiser
         for key in ("weights", "weights_groups", "weights_features"):
